@@ -1,6 +1,7 @@
 import Engeom.Driver.Proto
 import Engeom.Model.Section
 import Engeom.Model.Topology
+import Engeom.Model.Curve
 
 namespace DrvC13
 open P
@@ -25,6 +26,15 @@ def handle (op : String) (args : List String) : Option String :=
       let nrm ← v3; let d ← f; let verts ← list v3; let faces ← list tri
       let cr : List Seg := allCrossings (⟨nrm, d⟩ : Plane3 Float) verts faces
       pure (Out.join [Out.n cr.length, Out.f (totalLen cr), Out.n (componentCount (keysOf cr))])).run args
+  | "section.curves" => (do
+      -- the whole of Mesh::section: crossing segments, chained_indices, Curve3::from_points(tol)
+      let nrm ← v3; let d ← f; let tol ← f; let verts ← list v3; let faces ← list tri
+      let (pts, pairs) := planeCrossingSegments (⟨nrm, d⟩ : Plane3 Float) (Scalar.ofRat 1 1000000) verts faces
+      let chains := chainedIndices pairs
+      let curves : List (List (V3 Float)) := chains.filterMap fun (ch : List Nat) =>
+        let ps : List (V3 Float) := dedupTolPts tol (ch.map fun i => pts.getD i ⟨0, 0, 0⟩)
+        if 2 ≤ ps.length then some ps else none
+      pure (Out.join (Out.n curves.length :: curves.map (Out.list Out.v3)))).run args
   | _ => none
 
 end DrvC13
